@@ -7,6 +7,7 @@ import re
 import canmatrix.formats
 import canmatrix.formats.dbc
 from lib import dbcgen as G
+from lib import dbcsnap
 from lib import matrices as M
 
 PID = "C05"
@@ -122,7 +123,7 @@ def run(desc):
         end = next((i for i, l in enumerate(lines) if i > (first or 0) and re.match(r"^(BO_TX_BU_ |CM_ |BA_DEF_|BA_ |VAL_ |SIG_|SG_MUL|EV_ )", l)), len(lines))
         while end > 0 and lines[end - 1] == "":
             end -= 1
-        res.update({"err": "error with line no" in out, "errtext": out[:200], "fixed": b1 == b2, "diffs": diffs, "db": db, "lines": lines,
+        res.update({"b1": b1, "err": "error with line no" in out, "errtext": out[:200], "fixed": b1 == b2, "diffs": diffs, "db": db, "lines": lines,
                     "first": first, "end": end, "blocks": blocks_of(db),
                     "first_diff_line": next((repr(x)[:120] + " | " + repr(y)[:120] for x, y in zip(b1.split(b"\n"), b2.split(b"\n")) if x != y), None)})
     except Exception as e:  # noqa
@@ -191,6 +192,9 @@ def cases_of(desc, rng=None):
     if r["exc"] or desc.get("flavour"):
         return
     yield {"op": "file", "c": {"m": desc, "blocks": r["blocks"]}}
+    # the file as a whole against the reader model of Model/DbcFile.lean: as written, and damaged (lines inserted, dropped, cut)
+    for variant in range(3):
+        yield {"op": "whole", "c": {"m": desc, "variant": variant, "vseed": (rng.randrange(1 << 30) if rng is not None else 1)}}
     for bi, b in enumerate(r["blocks"]):
         if rng is None or rng.random() < 0.5:
             yield {"op": "bo", "c": {"m": desc, "bi": bi, "bo": b["bo"]}}
@@ -302,6 +306,67 @@ def cases_of(desc, rng=None):
                                                               "ranges": [[int(a), int(b)] for a, b in s.mux_val_grp]}}}
 
 
+BAD_LINES = ['FOO_ 1 2 3;', 'BO_ 12x Name: 8 E1', 'BO_ 4096 TooBig: 8 E1', ' SG_ broken : 0|8@1+ (1,0) [0|0] "" E1 extra', ' SG_ cut : 0|8@1+ (1,',
+             'BO_TX_BU_ 99999 : A,B;', 'BO_TX_BU_ : A;', 'CM_ SG_ 99999 nosuch "comment";', 'CM_ BO_ 99999 "no such frame";', 'CM_ BU_ NoSuchEcu "text";',
+             'CM_ BO_ 99999 "opens', 'CM_ BU_ NoSuchEcu "opens', 'CM_ SG_ 99999 s "opens', 'CM_  BO_ abc "x";', 'VAL_ 99999 nosuch 1 "a" ;', 'VAL_ 1 x 1 "unterminated',
+             'VAL_TABLE_ Tab9 1 "one" 0 "zero" ;', 'VAL_TABLE_ broken', 'BA_DEF_ BO_ "NewInt" INT 0 10;', 'BA_DEF_ BO_ "BadInt" INT 0;', 'BA_DEF_ SG_  "NewEnum" ENUM "a","b";',
+             'BA_DEF_  "GlobalStr" STRING ;', 'BA_DEF_DEF_ "NewInt" 5;', 'BA_DEF_DEF_ "Nowhere" "x";', 'BA_ "NewInt" BO_ 99999 3;', 'BA_ "NewInt" BO_ abc;', 'BA_ "GlobalStr" "some text";',
+             'BA_ "X" SG_ 99999 s 1;', 'BA_ "X" BU_ NoSuchEcu 1;', 'BA_ "X" BU_;', 'BA_ broken', 'SIG_GROUP_ 99999 G 1 : a b;', 'SIG_GROUP_ broken', 'SIG_VALTYPE_ 99999 s : 1;',
+             'SIG_VALTYPE_ broken', 'SG_MUL_VAL_ 99999 a b 1-1;', 'SG_MUL_VAL_ 1 a b x-y;', 'SG_MUL_VAL_ broken', 'BU_: Extra1 Extra2 X', 'NS_ :', 'VERSION "x"']
+
+
+def damage(lines, variant, vseed, db):
+    """variant 0: the file as written; 1: bad and stray lines inserted (also ones that refer to the file's own frames and signals);
+    2: lines dropped, the file cut inside a line, good statements repeated"""
+    import random
+    rng = random.Random(vseed)
+    lines = list(lines)
+    if variant == 0:
+        return lines
+    ids = [f.arbitration_id.to_compound_integer() for f in db.frames] or [1]
+    names = [(f.arbitration_id.to_compound_integer(), s.name[:32]) for f in db.frames for s in f.signals] or [(1, "s")]
+    ecus = [e.name[:32] for e in db.ecus] or ["E1"]
+    own = ['CM_ BO_ %d "replaced comment";' % rng.choice(ids), 'CM_ SG_ %d %s "sig comment ""quoted";' % rng.choice(names), 'CM_ BU_ %s "ecu comment";' % rng.choice(ecus),
+           'CM_ BO_ %d "first line' % rng.choice(ids), 'CM_ SG_ %d %s "first line' % rng.choice(names), 'second line";', 'BA_DEF_ BO_ "NewInt" INT 0 10;',
+           'BA_ "NewInt" BO_ %d 7;' % rng.choice(ids), 'BA_ "NewInt" BO_ %d seven;' % rng.choice(ids), 'BA_ "NewInt" BO_ %d 7.5;' % rng.choice(ids),
+           'VAL_ %d %s 3 "three" 1 "one" ;' % rng.choice(names), 'SIG_VALTYPE_ %d %s : 1;' % rng.choice(names), 'SIG_VALTYPE_ %d nosuch : 1;' % rng.choice(ids),
+           'SG_MUL_VAL_ %d %s Mux 1-2, 5-5;' % rng.choice(names), 'SG_MUL_VAL_ %d %s Mux 1-x;' % rng.choice(names), 'SIG_GROUP_ %d Grp 3 : %s nosuch;' % rng.choice(names),
+           'BO_TX_BU_ %d : %s,%s;' % (rng.choice(ids), rng.choice(ecus), rng.choice(ecus)), ' SG_ late : 0|1@1+ (1,0) [0|1] "" Vector__XXX', 'BO_ %d Twin: 8 Vector__XXX' % rng.choice(ids)]
+    if variant == 1:
+        for _ in range(rng.randint(1, 6)):
+            lines.insert(rng.randrange(len(lines) + 1), rng.choice(BAD_LINES + own))
+        return lines
+    for _ in range(rng.randint(0, 3)):
+        if lines:
+            del lines[rng.randrange(len(lines))]
+    for _ in range(rng.randint(0, 2)):
+        if lines:
+            lines.insert(rng.randrange(len(lines) + 1), rng.choice(lines))
+    if lines and rng.random() < 0.6:
+        k = rng.randrange(len(lines))
+        lines = lines[:k] + [lines[k][:rng.randrange(len(lines[k]) + 1)]]
+    return lines
+
+
+def observe_whole(c, r):
+    enc = c["m"]["enc"]
+    cenc = c["m"].get("cenc", enc)
+    text = r["b1"].decode(enc, "replace")
+    if cenc != enc and any(ord(ch) > 127 for ch in text):
+        return {"skipped": "comment encoding differs from the file encoding"}
+    if any(ch in text for ch in "\x0b\x0c\x1c\x1d\x1e\x1f\x85\xa0"):
+        return {"skipped": "blank characters beyond the ASCII ones (str.strip and bytes.strip differ)"}
+    lines = damage(text.split("\n"), c["variant"], c["vseed"], r["db"])
+    try:
+        data = "\n".join(lines).encode(enc)
+    except UnicodeError:
+        return {"skipped": "not encodable"}
+    o = dbcsnap.load_snapshot(data, enc)
+    if o["snap"] is None:
+        return {"skipped": "no snapshot: " + str(o["exc"])}
+    return {"lines": o["lines"], "snap": o["snap"]}
+
+
 def section_lines(r):
     if r["first"] is None:
         return []
@@ -323,6 +388,8 @@ def observe(case):
     if r["exc"]:
         return {"exc": r["exc"]}
     sec = section_lines(r)
+    if op == "whole":
+        return observe_whole(c, r)
     if op == "file":
         upto = r["lines"][:r["end"]]
         return {"section": sec, "lines": upto, "read": real_blocks(upto, enc)}
@@ -494,6 +561,10 @@ def project(impl):
         return {}
     if "attr" in impl:
         return {"attr": impl["attr"], "initial": impl["initial"]}
+    if "skipped" in impl:
+        return {}
+    if "snap" in impl:
+        return {"snap": impl["snap"]}
     if "section" in impl:
         return {"section": impl["section"], "read": impl["read"]}
     if "lines" in impl:
@@ -560,6 +631,13 @@ def features(case, impl):
             yield "global-attributes"
         if impl.get("exc"):
             yield "exception"
+    elif case["op"] == "whole":
+        yield "whole:variant=%d" % c["variant"]
+        if "skipped" in impl:
+            yield "whole:skipped(%s)" % impl["skipped"][:40]
+        elif "snap" in impl:
+            yield "whole:errors=%d" % min(impl["snap"]["errors"], 4)
+            yield "whole:frames=%d" % min(len(impl["snap"]["frames"]), 5)
     elif case["op"] == "sg":
         s = c["sg"]
         yield "sg:tag=%s" % (s["tag"] if isinstance(s["tag"], (str, type(None))) else s["tag"][0])
